@@ -394,3 +394,83 @@ func toIndefinite(ns []*node, maxDepth int) []byte {
 	}
 	return out
 }
+
+// ---- re-encoding of a primitive element at every content length -----------------------------
+//
+// A parser that takes a size out of hostile bytes and then indexes at fixed offsets fails only for a window
+// of lengths, which need not contain a block-size neighbour, and a length below 128 cannot be reached from a
+// long-form seed by substitution (the length must be re-encoded in short form with the enclosing lengths
+// consistent). relengths lists the content lengths a primitive element is re-encoded at.
+
+const (
+	relenMaxContent = 200 // elements with more content than this are left to the other mutators
+	relenMaxTarget  = 260
+)
+
+// relengths returns the target content lengths for a primitive element with l content bytes. thorough: every
+// length 0..min(2l+8, 260). quick: the same for l <= 64; longer elements get every length from l/2 to l+2, a
+// window of +-2 around every power of two, every multiple of 8 up to 136 with its two neighbours, and a stride
+// of 5 over the rest.
+func relengths(l int, thorough bool) []int {
+	m := min(2*l+8, relenMaxTarget)
+	var out []int
+	for t := 0; t <= m; t++ {
+		if t == l {
+			continue
+		}
+		keep := thorough || l <= 64 || (t >= l/2 && t <= l+2) || t%5 == 0 || (t <= 137 && (t%8 == 0 || t%8 == 1 || t%8 == 7))
+		for p := 1; !keep && p <= 256; p <<= 1 {
+			keep = t >= p-2 && t <= p+2
+		}
+		if keep {
+			out = append(out, t)
+		}
+	}
+	return out
+}
+
+// relenPos is one (element, target length) pair of an artefact.
+type relenPos struct {
+	node int
+	l    int
+}
+
+// relenPositions enumerates the pairs for a tree. In the quick tier OBJECT IDENTIFIER, BOOLEAN and NULL
+// elements are skipped (their decoders are the standard library's).
+func (t *derTree) relenPositions(thorough bool) []relenPos {
+	var out []relenPos
+	for i, n := range t.flat {
+		if n.tag[0]&0x20 != 0 || len(n.body) > relenMaxContent {
+			continue
+		}
+		if !thorough && len(n.tag) == 1 && (n.tag[0] == 0x06 || n.tag[0] == 0x01 || n.tag[0] == 0x05) {
+			continue
+		}
+		for _, l := range relengths(len(n.body), thorough) {
+			out = append(out, relenPos{i, l})
+		}
+	}
+	return out
+}
+
+// relenMutant re-encodes element p.node with p.l content bytes: the original bytes as far as they go, then -
+// by rotation on the target length - zeros, the original content repeated, or a fixed pseudo-random pattern.
+// Canonical length form, enclosing lengths recomputed.
+func (t *derTree) relenMutant(p relenPos) []byte {
+	n := t.flat[p.node]
+	c := make([]byte, p.l)
+	k := copy(c, n.body)
+	switch p.l % 3 {
+	case 1:
+		for i := k; i < p.l && len(n.body) > 0; i++ {
+			c[i] = n.body[i%len(n.body)]
+		}
+	case 2:
+		x := uint32(p.l)*2654435761 + uint32(p.node)
+		for i := k; i < p.l; i++ {
+			x = x*1664525 + 1013904223
+			c[i] = byte(x >> 24)
+		}
+	}
+	return emitReplace(t.roots, n, tlv(n.tag, c, lenMinimal))
+}
